@@ -31,6 +31,9 @@ func init() { Registry["C17"] = &Prop{Gen: genC17, New: func() Executor { return
 type c17ex struct {
 	base
 	c *world.Chan
+
+	sharedTask    string // task id shared by the taskS invocations of one conc op
+	sharedPending string // pending request shared by the batchS invocations of one conc op
 }
 
 func curGoid() int {
@@ -75,6 +78,45 @@ func (e *c17ex) prepare(i int, spec string) (*c17inv, bool) {
 		data, _ := proto.Marshal(&fpb.ExecuteTasksRequest{Tasks: []*fpb.Task{{Id: tid, Method: "script", Args: e.c.Signed(u, "script", inv.script)}}})
 		inv.creator, inv.fn, inv.args = wd.Client.Creator, "executeTasks", []string{string(data)}
 		inv.ids = []string{inv.txid, tid}
+	case "taskS":
+		// a task list whose task carries the SAME task id as the other taskS invocations of this op
+		// (the client picks task ids): still its own transaction
+		data, _ := proto.Marshal(&fpb.ExecuteTasksRequest{Tasks: []*fpb.Task{{Id: e.sharedTask, Method: "script", Args: e.c.Signed(u, "script", inv.script)}}})
+		inv.creator, inv.fn, inv.args = wd.Client.Creator, "executeTasks", []string{string(data)}
+		inv.ids = []string{inv.txid, e.sharedTask}
+	case "batchS":
+		// two batch proposals in flight naming the same pending request (a robot re-sending its batch)
+		if e.sharedPending == "" {
+			id, r := e.c.Submit("script", e.c.Signed(u, "script", inv.script))
+			if !r.OK() {
+				return nil, false
+			}
+			e.sharedPending = id
+		}
+		idb, _ := hex.DecodeString(e.sharedPending)
+		data, _ := proto.Marshal(&fpb.Batch{TxIDs: [][]byte{idb}})
+		inv.creator, inv.fn, inv.args = wd.Robot.Creator, "batchExecute", []string{string(data)}
+		inv.ids = []string{inv.txid, e.sharedPending}
+	case "xfer":
+		// a transfer (with the committed fee setting) executed by a batch; script = amount
+		id, r := e.c.Submit("transfer", e.c.Signed(wd.Users[0], "transfer", wd.Users[1].Addr, inv.script, "ref"))
+		if !r.OK() {
+			return nil, false
+		}
+		idb, _ := hex.DecodeString(id)
+		data, _ := proto.Marshal(&fpb.Batch{TxIDs: [][]byte{idb}})
+		inv.creator, inv.fn, inv.args = wd.Robot.Creator, "batchExecute", []string{string(data)}
+		inv.ids = []string{inv.txid, id}
+	case "fee":
+		// a batch that changes the fee setting (share in 1e-8; only simulated): script = share
+		id, r := e.c.Submit("setFee", e.c.Signed(wd.FeeSet, "setFee", "VT", inv.script, "0", "0"))
+		if !r.OK() {
+			return nil, false
+		}
+		idb, _ := hex.DecodeString(id)
+		data, _ := proto.Marshal(&fpb.Batch{TxIDs: [][]byte{idb}})
+		inv.creator, inv.fn, inv.args = wd.Robot.Creator, "batchExecute", []string{string(data)}
+		inv.ids = []string{inv.txid, id}
 	case "batch":
 		id, r := e.c.Submit("script", e.c.Signed(u, "script", inv.script))
 		if !r.OK() {
@@ -185,6 +227,18 @@ func (e *c17ex) Exec(op string) string {
 	case "reset":
 		e.c = wd.AddChannel("VT", world.Options{})
 		return "ok"
+	case "feeprep":
+		// committed: a funded sender, a fee collector, a 1 % transfer fee
+		if e.c == nil {
+			return "bad-op"
+		}
+		for _, s := range []string{e.c.Do(wd.Issuer, "emit", wd.Users[0].Addr, "1000000"), e.c.Do(wd.FeeASet, "setFeeAddress", wd.Users[2].Addr),
+			e.c.Do(wd.FeeSet, "setFee", "VT", "1000000", "0", "0")} {
+			if s != "" {
+				return "err " + s
+			}
+		}
+		return "ok"
 	case "seed":
 		if e.c == nil || len(w) != 3 {
 			return "bad-op"
@@ -227,6 +281,13 @@ func (e *c17ex) Exec(op string) string {
 		}
 		n := len(w) - 2
 		invs := make([]*c17inv, n)
+		e.sharedTask, e.sharedPending = simpeer.NewTxID(), ""
+		libPoints := false // switch points inside library code (every stub operation) for the token kinds
+		for i := 0; i < n; i++ {
+			if strings.HasPrefix(w[2+i], "xfer=") || strings.HasPrefix(w[2+i], "fee=") {
+				libPoints = true
+			}
+		}
 		for i := 0; i < n; i++ {
 			inv, ok := e.prepare(i, w[2+i])
 			if !ok {
@@ -269,6 +330,10 @@ func (e *c17ex) Exec(op string) string {
 			}
 			arrived <- i
 			<-resume[i]
+		}
+		if libPoints {
+			e.c.StubHook = e.c.Token.Hook
+			defer func() { e.c.StubHook = nil }()
 		}
 		doneCh := make(chan int, n)
 		waitFor := func(i int) bool { // until thread i blocks at a hook or finishes
@@ -317,7 +382,7 @@ func (e *c17ex) Exec(op string) string {
 		for _, i := range sched {
 			step(i)
 		}
-		for rounds := 0; rounds < 200 && !hung; rounds++ {
+		for rounds := 0; rounds < 2000 && !hung; rounds++ {
 			all := true
 			for i := 0; i < n; i++ {
 				if !finished[i] {
@@ -414,6 +479,39 @@ func genC17(c *Cfg, emit func([]string)) {
 			add(fmt.Sprintf("conc 0102 %s=%s init=- %s=%s", ka, sc, kinds[(len(sc)+1)%len(kinds)], sc))
 		}
 	}
+	// (a''') two requests in flight carrying the same inner id: task lists with the same (client-picked)
+	// task id, batches naming the same pending request
+	for _, k := range []string{"taskS", "batchS"} {
+		for si, sa := range scripts2 {
+			for _, sch := range interleave([]int{2, 2}) {
+				sb := scripts2[(si+2)%len(scripts2)]
+				if k == "batchS" {
+					sb = sa // the one pending request both batches name
+				}
+				add(fmt.Sprintf("conc %s %s=%s %s=%s", sch, k, sa, k, sb))
+			}
+		}
+	}
+	if len(h) > 0 {
+		emit(h)
+		h = nil
+	}
+	// (a'''') library code under the scheduler: a transfer with the committed 1 % fee and a merely
+	// simulated batch that sets another fee, switching at every state read / write / ACL call; the
+	// one runs k steps, then the other runs to its end, then the rest
+	nk := 12
+	if c.Thorough() {
+		nk = 60
+	}
+	for k := 0; k <= nk; k++ {
+		for _, first := range []string{"0", "1"} {
+			other := map[string]string{"0": "1", "1": "0"}[first]
+			sch := strings.Repeat(first, k) + strings.Repeat(other, 80)
+			emit([]string{"reset", "feeprep", fmt.Sprintf("conc %s xfer=1000 fee=%s", sch, []string{"10000000", "0", "50000000"}[k%3]),
+				fmt.Sprintf("conc %s xfer=%s xfer=777", sch, []string{"1000", "100000"}[k%2])})
+			count += 2
+		}
+	}
 	// (b) with a swap completion (installs and removes its context without switch points) in between
 	for _, ka := range kinds {
 		for _, sch := range []string{"0", "01", "010", "100", "001"} {
@@ -467,6 +565,6 @@ func genC17(c *Cfg, emit func([]string)) {
 		}
 	}
 	c.Exhaustive = true
-	c.Rule = fmt.Sprintf("%d concurrent runs on one chaincode instance: (a) two invocations, every pair of kinds {immediate method, batchExecute, executeTasks, query} x scripted bodies of two operations each (state put/get, event, or reporting the context's transaction id), ALL %d interleavings of their switch points (one immediately before every GetStub()); (a'') a re-initialisation proposal with another configuration simulated in between (bodies report the configuration in force); (b) a swap completion running in between; (c) three invocations under schedules of 2+2+2 switch points (%s); (d) bodies of four operations under sampled schedules; (e) every pair of kinds under all schedules again on an aged process (goroutine ids beyond 10^6, thorough 10^7). Each invocation runs on its own goroutine with its own simulated transaction; reply, write-set and event are compared with the same invocation run alone. non-trivial = every concurrent run; distinct = sha256", count, len(interleave([]int{2, 2})), map[bool]string{true: "all 90, six kind/body assignments each", false: "60 sampled"}[c.Thorough()])
+	c.Rule = fmt.Sprintf("%d concurrent runs on one chaincode instance: (a) two invocations, every pair of kinds {immediate method, batchExecute, executeTasks, query} x scripted bodies of two operations each (state put/get, event, or reporting the context's transaction id), ALL %d interleavings of their switch points (one immediately before every GetStub()); (a''') two requests in flight with the same inner id (task lists with the same task id, batches naming the same pending request); (a'''') library code under the scheduler: a batched transfer with a committed 1 % fee against a merely simulated batch setting another fee, and against another transfer, with a switch point at every state read, state write and access-control call, the one running k steps before the other runs to its end; (a'') a re-initialisation proposal with another configuration simulated in between (bodies report the configuration in force); (b) a swap completion running in between; (c) three invocations under schedules of 2+2+2 switch points (%s); (d) bodies of four operations under sampled schedules; (e) every pair of kinds under all schedules again on an aged process (goroutine ids beyond 10^6, thorough 10^7). Each invocation runs on its own goroutine with its own simulated transaction; reply, write-set and event are compared with the same invocation run alone. non-trivial = every concurrent run; distinct = sha256", count, len(interleave([]int{2, 2})), map[bool]string{true: "all 90, six kind/body assignments each", false: "60 sampled"}[c.Thorough()])
 	c.Extra = map[string]any{"concurrent_runs": count}
 }
